@@ -45,6 +45,9 @@ partial def readVD : Sexp → Option VD
   | .list (.atom "show" :: .atom g :: cs) => do pure (.show (← g.toNat?) (VDList.ofList (← cs.mapM readVD)))
   | .list (.atom "frag" :: cs) => do pure (.frag (VDList.ofList (← cs.mapM readVD)))
   | .list (.atom "nohydrate" :: cs) => do pure (.noHydrate (VDList.ofList (← cs.mapM readVD)))
+  -- a cleanup of the page (it writes a signal when the render scope / the root is torn down, i.e. after
+  -- everything the case observes): no node
+  | .list [.atom "oncleanup", .atom _, .atom _] => pure (.frag .nil)
   | _ => none
 end
 
